@@ -137,7 +137,7 @@ def register(PROPS, h):
               "visible to the requester (public or allow-listed). One-directional: refusing an authorized request is not a violation. "
               "Non-trivial/distinct = case seed."),
         assumptions=[TB, "radicle_node::test::environment (heartwood's own e2e scaffolding) spawns the real Runtime per node", "the `git` executable", "loopback networking in the sandbox"],
-        gates=dict(quick={"unauthorized-refused": 200, "authorized-served": 100, "refused.private-not-allowed": 100, "refused.not-seeded": 60},
-                   thorough={"unauthorized-refused": 12000, "authorized-served": 6000}),
+        gates=dict(quick={"unauthorized-refused": 200, "authorized-served": 30, "refused.private-not-allowed": 100, "refused.not-seeded": 60},
+                   thorough={"unauthorized-refused": 2000, "authorized-served": 300}),
         runs=dict(quick=[native("h-node", "C12")], thorough=[native("h-node", "C12")]),
     )
